@@ -100,7 +100,7 @@ def plan(tier):
     if tier == 'thorough':
         return dict(shards=16, cases=18 * 20, timeout=3000, budget_s=840)
     # PV_C20_BUDGET: wall budget override for verification runs on an oversubscribed machine (never a verdict)
-    return dict(shards=8, cases=45, timeout=900, budget_s=float(os.environ.get('PV_C20_BUDGET', 70)))
+    return dict(shards=8, cases=45, timeout=900, budget_s=float(os.environ.get('PV_C20_BUDGET', 65)))
 
 
 # ================================================================================================
